@@ -1610,6 +1610,26 @@ impl Transaction {
         }
 
         //
+        // spent slips must still be inside the retention window: what has fallen out of it has been
+        // rebroadcast or, if too small for that, collected as fees by the block that let it expire.
+        // (rebroadcast transactions are the ones that move expiring slips)
+        //
+        if validate_against_utxo && self.transaction_type != TransactionType::ATR {
+            let latest_block_id = blockchain.get_latest_block_id();
+            for input in self.from.iter() {
+                if input.amount > 0
+                    && latest_block_id >= input.block_id.saturating_add(blockchain.genesis_period)
+                {
+                    error!(
+                        "ERROR: transaction spends a slip of block {:?} which has left the retention window (latest block : {:?})",
+                        input.block_id, latest_block_id
+                    );
+                    return false;
+                }
+            }
+        }
+
+        //
         // spent transaction slips must be spendable (in hashmap)
         //
         return if validate_against_utxo {
